@@ -24,12 +24,14 @@ type explorer struct {
 	dim          int // max container dimension (identity aliasing)
 	baseR, baseC int // base matrix of the view exploration
 	baseV        int // base vector of the view exploration
+	histDepth    int // number of earlier contents in an object history (scalars)
 }
 
 func run(c *vf.Ctx) {
-	x := &explorer{c: c, dim: 2, baseR: 2, baseC: 2, baseV: 3}
+	x := &explorer{c: c, dim: 2, baseR: 2, baseC: 2, baseV: 3, histDepth: 1}
 	if c.Thorough() {
 		x.dim, x.baseR, x.baseC, x.baseV = 3, 3, 3, 4
+		x.histDepth = 2
 	}
 	x.exploreScalars()
 	x.exploreContainers()
@@ -40,12 +42,14 @@ func main() {
 		ID:    "C08",
 		Level: "exploration",
 		Rule: "scalars: every operation (generic + capital variant, 9 element types) x ALL set partitions of its slots (receiver, operands, temporaries; for reductions receiver/temporaries bound to vector elements) x operand grid incl. branch boundaries x jet kinds (order 0/1/2, N 0/2) x prior content of written-only objects; " +
+			"object histories (Real32/Real64 scalar operations, every op x alias partition x operand grid whose call on brand-new objects is alias independent): one object at a time (receiver block, operand, temporary) received its current content only after having held contents of other derivative orders over the same number of variables (order sequences o2>o1, o0>o1, o1>o2, o0>o2, o1>o0, o2>o0; thorough: one more earlier content, e.g. o2>o0>o1, o1>o2>o1), the last assignment by r.Set(src) or as result of r.Add(src, 0); compared with the call on brand-new objects; " +
 			"containers (dense+sparse, 9 element types, generic + capital variant): all non-trivial partitions of {r,a,b} for element-wise ops, MdotM, MdotV, VdotM, Outer over all shapes 0..D and all element patterns over {0/absent,1,-2,stored-zero,zero-with-derivative}, scalar operand taken from every element of r or a; " +
 			"views: r,a,b from all non-empty windows (and their transposes) of one base matrix/vector or a separate object; a case is non-trivial when at least two slots share storage and the alias-free reference call returns normally",
 		Assume: []string{
 			"temporaries (t of LogAdd/LogSub/Sigmoid, t[] of SmoothMax/LogSmoothMax) are scratch space: partitions in which a temporary shares its object with another slot are executed and counted (info_temp_shared_alias_dependent) but are not violations; the only documentation is 'take the third argument as a temporary variable' and every caller in the repository passes a dedicated object",
 			"the alias-free reference call defines the expected result; cases whose reference call panics (domain/usage errors) are outside the property",
 			"a panic containing 'result and argument must be different' is the API's explicit alias rejection",
+			"an object history is built through the public API only (NewScalar, Alloc/SetDerivative/SetHessian for the first content, Set / Add for every later one); its public state (value, order, N, every derivative slot) afterwards is verified to equal that of a brand-new object with the same content, so 'what a fresh receiver would hold' is the call on brand-new objects",
 		},
 		Run: run,
 		Replay: func(c *vf.Ctx, raw json.RawMessage) {
@@ -55,6 +59,15 @@ func main() {
 				return
 			}
 			var key, what string
+			defer func() {
+				if r := recover(); r != nil {
+					if hb, ok := r.(histBuildError); ok {
+						c.HarnessError("replay: " + hb.msg)
+						return
+					}
+					panic(r)
+				}
+			}()
 			switch {
 			case cs.Scalar != nil:
 				key, what, _ = runScalarCase(cs.Scalar)
